@@ -115,6 +115,8 @@ impl DoviProcessor {
 
     pub fn read_write_from_io(&mut self, format: &IoFormat) -> Result<()> {
         let chunk_size = 100_000;
+        #[cfg(feature = "verif_hooks")]
+        let chunk_size = super::verif_chunk_size("DOVI_TOOL_VERIF_CHUNK_SIZE", chunk_size);
 
         let processor_opts = HevcProcessorOpts {
             parse_nals: true,
